@@ -1,4 +1,5 @@
 import AmVerif.Lemmas.TopoGraph
+import AmVerif.Lemmas.Converge
 import AmVerif.Lemmas.World
 import AmVerif.Gen.Tables
 /-!
@@ -120,6 +121,60 @@ theorem C05_failed_reload_keeps (env : Env) (fuel : Nat) (s : St) (key : Key) (c
   refine ⟨?_, by first | rfl | trivial⟩
   have := hmono key c (by simpa [St.lookup] using hc)
   simpa [St.lookup] using this
+
+/-! ## Semantic convergence of one update pass -/
+
+/-- **One update pass converges** (partial: the two situations in which the full statement is
+false are excluded by the named hypotheses `hmiss` and `hrewire`).
+
+Setting: `env` is the source before the edits, `env'` after; both without fault plan (`Steady`),
+same loaders (`SameLoaders`). `s`, `r` are the cache and the reloader's data when `run_update`
+starts (messages drained, events taken into `r.toReload`).
+
+Hypotheses:
+* `hset` — before the edits everything was settled: every registered, cached, dynamic asset holds
+  what re-evaluating its loader against `env` and the cache gives (or that re-evaluation fails),
+  the evaluation being a tracked hit-only run whose reads are the node's dependencies;
+* `hG`, `hrank` — the graph's `rdeps` is the inverse of `deps`, and look-ups are acyclic;
+* `hlive`, `hfuel` — the reloader is alive and the sort has enough fuel;
+* `hfile`, `hdir` — `env'` differs from `env` only on entries of `changed`;
+* `hnotified` — every changed entry the graph knows has been notified (is in `r.toReload`);
+* `hmiss` — **excludes F-C05d**: every re-evaluation of this pass is a tracked hit-only run: on its
+  path only `ret / fail / panic / read / readDir / getCached / load / tick` (no `loadOwned`, no
+  unrecorded reads under `noRecord` / `onThread` / `tryCatch`), every look-up recorded (hot type),
+  and no `.load` of an asset that is not cached yet;
+* `hret` — every re-evaluation of this pass returns a value or an error (a panic is caught and
+  leaves the graph without the new dependencies; exhausted fuel kills the thread);
+* `hrewire` — **excludes F-C05e**: no re-evaluation of this pass acquires a NEW dependency on the
+  asset itself or on an asset that is reloaded LATER in this pass. (Old dependencies are never
+  reloaded later: `C05_deps_before_dependents`.)
+
+Conclusion: after the pass every registered, cached, dynamic asset holds exactly what re-evaluating
+its loader against the new source and the current cache returns (or that re-evaluation fails and the
+entry kept its previous value), and the graph holds exactly what that evaluation reads (for a failing
+one: at least what it reads); the reloader is alive. -/
+theorem C05_pass_converges_partial (env env' : Env) (fuel : Nat) (s : St) (r : RSt) (changed : List Dep)
+    {rank : Dep → Nat}
+    (hS : env.Steady) (hS' : env'.Steady) (hL : SameLoaders env env')
+    (hset : Settled env fuel s r.graph) (hG : GraphOK r.graph)
+    (hrank : ∀ a rs b, r.graph.rdepsOf a = some rs → b ∈ rs → rank b < rank a)
+    (hlive : r.dead = false) (hfuel : r.graph.length + 1 ≤ fuel)
+    (hfile : ∀ id ext, Dep.file id ext ∉ changed → env'.read 0 id ext = env.read 0 id ext)
+    (hdir : ∀ id, Dep.dir id ∉ changed → env'.readDir 0 id = env.readDir 0 id)
+    (hnotified : ∀ d, d ∈ changed → r.graph.get d ≠ none → d ∈ r.toReload)
+    (hmiss : NoMissInPass env' fuel (updateSteps env' fuel s r))
+    (hret : ReloadsReturn env' fuel (updateSteps env' fuel s r))
+    (hrewire : NoRewireOntoPending env' fuel (updateSteps env' fuel s r)) :
+    Settled env' fuel (runUpdate env' fuel s r).1 (runUpdate env' fuel s r).2.graph ∧
+    (runUpdate env' fuel s r).2.dead = false := by
+  obtain ⟨keys, hk⟩ := topo_terminates r.graph fuel hfuel r.toReload
+  unfold updateSteps at hmiss hret hrewire
+  rw [hk] at hmiss hret hrewire
+  unfold runUpdate
+  rw [hk]
+  exact reloadAll_converges hS' keys s { r with toReload := [] }
+    (pinv_init hS hS' hL hset hG.1 hk hfile hdir hnotified) hlive (topo_nodup hk)
+    (depsFirst_of_topo hG.1 hrank hk) hmiss hret hrewire
 
 /-! Non-vacuity -/
 example : GraphOK (Graph.insertAsset [] (.asset ⟨0, "a"⟩) [.file "a" "s"]) :=
